@@ -750,7 +750,18 @@ func (f *STFS) Rename(oldname, newname string) error {
 	f.ioLock.Lock()
 	defer f.ioLock.Unlock()
 
-	if root, err := f.metadata.Metadata.GetRootPath(context.Background()); err != nil || root == oldname {
+	// "a/b", "./a/b" and "/a/b" are spellings of the same entry, "." and "" of the root: the checks below
+	// compare names in one spelling
+	spelling := func(name string) string {
+		cleaned := filepath.Clean(name)
+		if cleaned == "." {
+			return "/"
+		}
+
+		return "/" + strings.TrimPrefix(cleaned, "/")
+	}
+
+	if root, err := f.metadata.Metadata.GetRootPath(context.Background()); err != nil || root == oldname || spelling(root) == spelling(oldname) {
 		return os.ErrInvalid
 	}
 
@@ -785,11 +796,11 @@ func (f *STFS) Rename(oldname, newname string) error {
 	}
 
 	// Renaming an entry to itself is a no-op, moving it into its own subtree is impossible
-	if oldname == newname {
+	if oldname == newname || spelling(oldname) == spelling(newname) {
 		return nil
 	}
 
-	if source.Typeflag == tar.TypeDir && strings.HasPrefix(newname, strings.TrimSuffix(oldname, "/")+"/") {
+	if source.Typeflag == tar.TypeDir && strings.HasPrefix(spelling(newname), strings.TrimSuffix(spelling(oldname), "/")+"/") {
 		return os.ErrInvalid
 	}
 
